@@ -15,8 +15,8 @@
 from .. import ir
 from ..paths import walk, paths
 from ..report import AnalysisError
-from .common import const_value, new_items
-from .explcore import same, impute_args, MEANOUT
+from .common import const_value, new_items, list_build
+from .explcore import same, impute_args, meanout_arg, MEANOUT
 from .imputerlib import merge_form
 from .sagelib import role_fields, one, chain_loops, is_call_to, FEATURE_NAMES, direct_events
 
@@ -61,39 +61,23 @@ def _batch(run, prog, cls, method, original):
     N = ("gate", ("cmp", "is", npar, ("const", None)), ("field0", "n_inner_samples"), npar)
     W = lambda line: f"{s.path}:{line}"
     index = {id(ev): i for i, (ev, _) in enumerate(walk(s.events))}
-    # ---- BASE -------------------------------------------------------------------------------------
-    base_calls = [(ev, ctx) for ev, ctx in walk(s.events) if isinstance(ev, ir.Call) and ev.callee == MEANOUT and not ctx.loops]
-    base = None
-    for ev, ctx in base_calls:
-        a = ev.args[0] if ev.args else None
-        if a is not None and a[0] == "res" and a[2] == f"self.{mf}":
-            base = (ev, a)
-    if base is None:
-        run.fail("BASE", f"{method}.baseline", W(s.fn.lineno), fq, "no baseline", "the mean prediction over the explained data "
-                 "is not computed once before the observation loop")
-        return
-    bev, marg = base
-    run.check(marg[3] == (xd,) and not marg[4], "BASE", f"{method}.baseline", W(bev.line), fq,
-              f"baseline over {ir.show_nl(marg[3][0])[:100] if marg[3] else None}",
-              f"the empty-coalition baseline must be the mean model output over exactly the explained x_data; it is "
-              f"computed over {ir.show_nl(marg[3][0])[:140] if marg[3] else None}", "baseline = mean output of model(x_data)")
-    MP = bev.res
-    # ---- chain ------------------------------------------------------------------------------------
+    ctx_of = {id(ev): ctx for ev, ctx in walk(s.events)}
+    # ---- chain --------------------------------------------------------------------------------------
     chains = chain_loops(s.events, lf)
     run.need(len(chains) == 1, f"{fq}: expected one chain loop, found {len(chains)}")
     L, Lctx = chains[0]
-    run.need(len(Lctx.loops) == 1, f"{fq}: the chain is not nested in exactly one observation loop")
-    O = Lctx.loops[0]
+    outer = [l for l in Lctx.loops if not l.comp]
+    run.need(len(outer) == 1, f"{fq}: the chain is not nested in exactly one observation loop")
+    O = outer[0]
     elem = ("elem", L.lid)
-    # observation loop over zip(x_data, y_data)
     it = O.iter
     enum = it[0] == "fn" and it[1] == "enumerate"
-    start = None
+    start_ix = None
     z = it
     if enum:
         z = it[2][0]
-        start = next((a[2] for a in it[2] if isinstance(a, tuple) and a and a[0] == "kw" and a[1] == "start"),
-                     it[2][1] if len(it[2]) > 1 and it[2][1][0] != "kw" else ("const", 0))
+        start_ix = next((a[2] for a in it[2] if isinstance(a, tuple) and a and a[0] == "kw" and a[1] == "start"),
+                        it[2][1] if len(it[2]) > 1 and it[2][1][0] != "kw" else ("const", 0))
     zipped = z[0] == "fn" and z[1] == "zip" and z[2] == (xd, yd)
     oe = ("elem", O.lid)
     pair = ("tget", oe, 1) if enum else oe
@@ -111,15 +95,27 @@ def _batch(run, prog, cls, method, original):
         return
     name, init, nxt = carried
     mu = ("mu", L.lid, name)
-    c0 = init[0] == "res" and init[2] == f"self.{lf}" and init[3] == (yo, MP) and not init[4]
+    # ---- BASE: the chain starts at loss(y_i, mean output of model(x_data)) computed once ---------------
+    c0 = init[0] == "res" and init[2] == f"self.{lf}" and len(init[3]) == 2 and init[3][0] == yo and not init[4]
     run.check(c0, "TELESCOPE", f"{method}.start", W(L.line), fq, f"chain start {ir.show_nl(init)[:140]}",
               f"every observation's chain must start at loss(y_i, baseline) with positional (y_true, y_pred); found "
               f"{ir.show_nl(init)[:200]}", "c0 = loss(y_i, mean prediction)")
+    if c0:
+        outs0, why = meanout_arg(init[3][1])
+        mcall = next((ev for ev, _ in walk(s.events) if isinstance(ev, ir.Call) and outs0 is not None and ev.res == outs0), None)
+        good = outs0 is not None and outs0[0] == "res" and outs0[2] == f"self.{mf}" and outs0[3] == (xd,) and not outs0[4]
+        once = mcall is not None and not [l for l in ctx_of[id(mcall)].loops if not l.comp]
+        if outs0 is None:
+            msg = f"the baseline is not a mean model output: {why}"
+        elif not good:
+            msg = f"the baseline is the mean output over {ir.show_nl(outs0)[:120]}, not over model(x_data) of the explained data"
+        else:
+            msg = "the baseline prediction is recomputed inside the observation loop" if not once else ""
+        run.check(good and once, "BASE", f"{method}.baseline", W(mcall.line if mcall else s.fn.lineno), fq,
+                  f"baseline: {msg or 'ok'}",
+                  f"the empty-coalition baseline must be the mean model output over exactly the explained x_data, computed "
+                  f"once: {msg}", "baseline = mean output of model(x_data)")
     body = direct_events(L)
-    accs = [(ev, ctx) for ev, ctx in body if isinstance(ev, ir.SubStore) and ev.key == elem and
-            ev.cont[0] == "comp" and ev.cont[1] == "dict"]
-    accs += [(ev, ctx) for ev, ctx in body if isinstance(ev, ir.SubStore) and ev.key == elem and
-             ev.cont[0] == "new" and ev.cont[2] == "dict" and not original]
     acc = None
     for ev, ctx in body:
         if isinstance(ev, ir.SubStore) and ev.key == elem and ("sub", ev.cont, elem) in ir.subterms(ev.value):
@@ -141,11 +137,16 @@ def _batch(run, prog, cls, method, original):
               f"accumulators must start at 0 for exactly the feature names; found {ir.show_nl(A)[:160]}",
               "acc = {f: 0 for f in feature_names}")
     # loss after revealing
-    new_ok = nxt[3] and nxt[3][0] == yo and len(nxt[3]) == 2 and not nxt[4] and nxt[3][1][0] == "res" and nxt[3][1][2] == MEANOUT
-    preds = nxt[3][1][3][0] if new_ok and nxt[3][1][3] else None
-    run.check(new_ok, "TELESCOPE", f"{method}.new", W(L.line), fq, f"loss after revealing {ir.show_nl(nxt)[:140]}",
-              f"the loss after revealing must be loss(y_i, mean output of the n evaluations) with positional arguments; "
-              f"found {ir.show_nl(nxt)[:200]}", "new = loss(y_i, mean output(predictions))")
+    new_ok = len(nxt[3]) == 2 and nxt[3][0] == yo and not nxt[4]
+    preds, why = (None, "")
+    if new_ok:
+        preds, why = meanout_arg(nxt[3][1])
+        new_ok = preds is not None
+    run.check(new_ok, "TELESCOPE", f"{method}.new", W(L.line), fq, f"loss after revealing: {why or 'ok'}",
+              f"the loss after revealing must be loss(y_i, mean output of the n evaluations) with positional arguments: "
+              f"{why or ir.show_nl(nxt)[:160]}", "new = loss(y_i, mean output(predictions))")
+    if not new_ok:
+        return
     if not original:
         imps = [(ev, ctx) for ev, ctx in body if is_call_to(ev, imf, "impute")]
         if len(imps) != 1:
@@ -158,42 +159,46 @@ def _batch(run, prog, cls, method, original):
         rem = [ev for ev, _ in body if isinstance(ev, ir.Mut) and ev.recv == fs and ev.method in ("remove", "discard")
                and tuple(ev.args) == (elem,)]
         before = bool(rem) and index[id(rem[0])] < index[id(iev)]
-        per_obs = full and O.lid in [int(x.split(":")[0]) if False else 0 for x in ()] or True
-        fresh_set = full and any(isinstance(e, ir.Mut) and e.recv == fs for e, _ in body)
         run.check(full and before and preds == iev.res and xi == xo and ns == N, "TELESCOPE", f"{method}.coalition",
                   W(iev.line), fq, "coalition handling",
                   "the imputed set must start as all feature names for every observation, lose the revealed feature "
                   "before the imputation, and the imputer must get the observation's x_i and n; "
                   f"found subset={ir.show_nl(fs)[:80] if fs else None}, removed-before={before}, x_i={ir.show_nl(xi)[:40] if xi else None}",
                   "S = set(feature_names); S.remove(f); impute(S, x_i, n)")
-        # the set is rebuilt per observation: its construction site lies inside the observation loop
-        set_in_obs = any(True for ev, ctx in walk(O.body) if isinstance(ev, ir.Mut) and ev.recv == fs)
     else:
-        # revealed dict and merged model input
         stores = [(ev, ctx) for ev, ctx in body if isinstance(ev, ir.SubStore) and ev.cont[0] == "new" and ev.cont[2] == "dict"
                   and ev.key == elem]
         xs = stores[0][0] if stores else None
-        mcalls = [(ev, ctx) for ev, ctx in walk(L.body) if is_call_to(ev, mf) and ev.method is None]
-        ok = xs is not None and xs.value == ("sub", xo, elem) and len(mcalls) == 1
+        lb = list_build(preds, s.events)
+        ok = xs is not None and xs.value == ("sub", xo, elem) and lb is not None and len(lb.entries) == 1
+        why = "the revealed values are not extended by x_i[feature]" if xs is None or xs.value != ("sub", xo, elem) else \
+            "the predictions are not one list of model evaluations"
         if ok:
-            mev, mctx = mcalls[0]
+            val = lb.entries[0][0]
+            mev = next((ev for ev, _ in walk(L.body) if isinstance(ev, ir.Call) and ev.res == val), None)
+            ok = val[0] == "res" and val[2] == f"self.{mf}" and mev is not None
+            why = "the averaged values are not model evaluations"
+        if ok:
             mfm = merge_form(mev.args[0], s.events) if mev.args else None
             ok = mfm is not None and mfm[1] == xs.cont and mfm[0][0] == "sub" and mfm[0][1] == xd and \
                 index[id(xs)] < index[id(mev)]
-            inner = [l for l in mctx.loops if l is not L and l is not O]
-            cnt = len(inner) == 1 and inner[0].iter in (("fn", "range", (N,)), ("fn", "range", (("const", 1), ("op", "+", N, ("const", 1)))),
-                                                        ("fn", "range", (("const", 0), N)))
+            why = "the model input is not a background row of x_data overlaid by the revealed values (in this order)"
+            rng = lb.over
+            cnt = rng in (("fn", "range", (N,)), ("fn", "range", (("const", 1), ("op", "+", N, ("const", 1)))),
+                          ("fn", "range", (("const", 0), N)))
+            if lb.kind == "accum":
+                ectx = lb.entries[0][1]
+                inner = [l for l in ectx.loops if l is not L and l is not O and not l.comp]
+                cnt = cnt and len(inner) == 1 and not ectx.guards
             run.check(cnt, "TELESCOPE", f"{method}.n-evaluations", W(mev.line), fq,
-                      f"inner loop {ir.show_nl(inner[0].iter) if inner else None}",
-                      f"exactly n model evaluations must be averaged per chain step; the inner loop runs over "
-                      f"{ir.show_nl(inner[0].iter) if inner else 'nothing'}", "n evaluations per step")
-            app = [e for e, _ in walk(L.body) if isinstance(e, ir.Mut) and e.recv == preds and e.method == "append"]
-            ok = ok and len(app) == 1 and app[0].args == (mev.res,)
-        run.check(ok, "TELESCOPE", f"{method}.coalition", W(L.line), fq, "revealed-values handling",
+                      f"inner evaluations over {ir.show_nl(rng) if rng else None}",
+                      f"exactly n model evaluations must be averaged per chain step; they range over "
+                      f"{ir.show_nl(rng) if rng else 'nothing'}", "n evaluations per step")
+        run.check(ok, "TELESCOPE", f"{method}.coalition", W(L.line), fq, f"revealed-values handling: {why if not ok else 'ok'}",
                   "original mode must add x_i[feature] to the revealed values before the evaluations and evaluate the model "
-                  "on a background row of x_data overlaid by the revealed values, collecting every prediction",
-                  "x_s[f] = x_i[f]; model({**x_data[idx], **x_s}) appended n times")
-    # ---- AVERAGE ----------------------------------------------------------------------------------
+                  f"on a background row of x_data overlaid by the revealed values, collecting every prediction: {why}",
+                  "x_s[f] = x_i[f]; model({**x_data[idx], **x_s}) n times")
+    # ---- AVERAGE ------------------------------------------------------------------------------------
     st = [ev for ev, _ in walk(s.events) if isinstance(ev, ir.Store) and ev.field == "importance_values"]
     if len(st) != 1:
         run.fail("AVERAGE", f"{method}.result", W(s.fn.lineno), fq, f"{len(st)} result stores",
@@ -218,7 +223,7 @@ def _batch(run, prog, cls, method, original):
                 cnt_ok = True
             elif den[0] == "eta" and den[1] == O.lid:
                 cinit, cnext = O.carried.get(den[2], (None, None))
-                cnt_ok = enum and const_value(start) == 1 and cnext == ("tget", oe, 0) and cinit == ("fn", "len", (xd,))
+                cnt_ok = enum and const_value(start_ix) == 1 and cnext == ("tget", oe, 0) and cinit == ("fn", "len", (xd,))
             why = "" if cnt_ok else f"divisor {ir.show_nl(den)} is not the number of explained observations"
         else:
             why = f"value {ir.show_nl(v)[:140]}"
@@ -258,6 +263,21 @@ def _batch_one(run, prog, cls):
               "BatchStorage(store_targets=True)")
 
 
+def _norm_mod(g, mod):
+    """A remainder is non-negative: spell every test of `mod` against 0 as == 0 / != 0."""
+    from .common import substitute
+    zero = ("const", 0)
+    table = {("cmp", ">", mod, zero): ("cmp", "!=", mod, zero), ("cmp", "<=", mod, zero): ("cmp", "==", mod, zero),
+             ("cmp", ">=", mod, ("const", 1)): ("cmp", "!=", mod, zero), ("cmp", "<", mod, ("const", 1)): ("cmp", "==", mod, zero),
+             ("not", mod): ("cmp", "==", mod, zero)}
+    g = substitute(g, table)
+    if g == mod:
+        return ("cmp", "!=", mod, zero)
+    if isinstance(g, tuple) and g and g[0] in ("and", "or"):
+        return (g[0], tuple(("cmp", "!=", mod, zero) if x == mod else x for x in g[1]))
+    return g
+
+
 def _xy(ev):
     kw = dict(ev.kwargs)
     a = list(ev.args)
@@ -287,41 +307,48 @@ def _interval(run, prog, cls, bs):
     seen1 = ("op", "+", seen, ("const", 1))
     ilen = ("field0", "interval_length")
     mod = ("op", "%", seen1, ilen)
-    skip_lits = {("cmp", "!=", mod, ("const", 0)), ("cmp", ">", mod, ("const", 0)), mod,
-                 ("not", ("cmp", "==", mod, ("const", 0)))}
+    due = ("or", (force, ("cmp", "==", mod, ("const", 0))))          # reference: recompute iff forced or due
+    from . import boolalg
     ps = paths(s.events, unroll=1)
     run.analysed["paths"] += len(ps)
     bad = None
     n_early = n_rec = 0
+    # every modulo test of the schedule must be on the incremented counter and the configured interval
+    for ev, ctx in walk(s.events, structural=True):
+        if isinstance(ev, ir.If):
+            for t in ir.subterms(ev.cond):
+                if t[0] == "op" and t[1] == "%" and t != mod:
+                    if t[2] == seen:
+                        bad = "the schedule tests the call count before it is incremented"
+                    else:
+                        bad = f"the schedule tests {ir.show_nl(t)} instead of (call count) % interval_length"
     for p in ps:
         cb = [e for e in p.events if isinstance(e, ir.Call) and e.callee in (f"self.{mf}", f"self.{lf}", f"self.{imf}")]
         commits = [e for e in p.events if isinstance(e, ir.Store) and e.field == "importance_values"]
-        g = set()
-        for lit in p.guards:
-            if lit[0] == "and":
-                g |= set(lit[1])
-            else:
-                g.add(lit)
-        skipping = (("not", force) in g) and bool(g & skip_lits)
+        sched = [_norm_mod(g, mod) for g in p.guards
+                 if force in ir.subterms(g) or any(t[0] == "op" and t[1] == "%" for t in ir.subterms(g))]
+        cond = boolalg.conj(sched) if sched else None
         rets = [e for e in p.events if isinstance(e, ir.Return)]
-        if skipping:
-            n_early += 1
-            if cb or commits:
-                bad = f"the non-scheduled path evaluates {len(cb)} callbacks / rewrites the values"
-            elif not rets or ir.assume(rets[-1].value, list(p.guards)) != ("field0", "importance_values"):
-                bad = "the non-scheduled path does not return the stored importance values"
+        lits = " & ".join(ir.show_nl(l) for l in sched) or "always"
+        if cb:
+            n_rec += 1
+            if cond is None or not boolalg.implies(cond, due):
+                bad = bad or f"a recomputation happens under [{lits}], which does not imply `forced or count % interval_length == 0`"
         else:
-            if not cb:
-                # a path that neither skips by the schedule condition nor computes
-                lits = " & ".join(ir.show_nl(l) for l in p.guards)
-                bad = f"a path returns without recomputation under [{lits}], which is not `not forced and count % interval_length != 0`"
-            else:
-                n_rec += 1
+            n_early += 1
+            if cond is None or not boolalg.implies(cond, ir.negate(due)):
+                bad = bad or f"a call returns without recomputation under [{lits}], which does not imply `not forced and count % interval_length != 0`"
+            elif commits:
+                bad = bad or "the non-scheduled path rewrites the importance values"
+            elif not rets or ir.assume(rets[-1].value, list(p.guards)) != ("field0", "importance_values"):
+                v = ir.assume(rets[-1].value, list(p.guards)) if rets else None
+                if not (v is not None and v[0] == "gate"):
+                    bad = bad or "the non-scheduled path does not return the stored importance values"
     run.check(bad is None and n_early >= 1 and n_rec >= 1, "SCHEDULE", "interval.schedule", W(s.fn.lineno), fq,
               bad or "schedule",
               f"recomputation must happen exactly when forced or when the incremented call count is a multiple of "
               f"interval_length, and otherwise the stored values are returned without evaluating anything: {bad}",
-              f"{n_early} early-return and {n_rec} recomputation paths; early <=> not force and (seen+1) % interval_length != 0")
+              f"{n_early} early-return and {n_rec} recomputation paths; recompute <=> force or (seen+1) % interval_length == 0")
     # recomputation explains the storage's data
     inl = [(ev, ctx) for ev, ctx in walk(s.events, structural=True) if isinstance(ev, ir.Inlined) and ev.qual == "BatchSage.explain_many"]
     gd = [ev for ev, _ in walk(s.events) if is_call_to(ev, sf, "get_data")]
